@@ -44,8 +44,14 @@ class _NpProxy:
 def _install_proxy():
     import black_it.search_space as ss
 
-    if not isinstance(ss.np, _NpProxy):
-        ss.np = _NpProxy(ss.np)
+    import numpy as real_np
+
+    if hasattr(ss, "np"):
+        if not isinstance(ss.np, _NpProxy):
+            ss.np = _NpProxy(ss.np)
+    elif getattr(ss, "arange", None) is real_np.arange:
+        # `from numpy import arange` style: guard the bare name instead
+        ss.arange = _NpProxy(real_np).arange
     return ss
 
 
